@@ -315,20 +315,28 @@ theorem pod_step_keeps (c : Ctl) (v : Pod) (c' : Ctl) (hph : v.phase ≠ "F") (h
   have hfind : findPod c1.pods v.ns v.name = some v := by
     apply find_upsertBy
     simp
-  have hev : ∃ old kind, handle c1 (podEvOf c v) = podEvent c1 old v kind := by
+  have hev : ∃ (old : Option Pod) (kind : PodEvKind) (kx : List String),
+      handle c1 (podEvOf c v) = ((podEvent c1 old v kind).1, kx.map Ev.replay ++ (podEvent c1 old v kind).2) := by
     unfold podEvOf
     cases findPod c.pods v.ns v.name with
-    | none => exact ⟨none, .add, by simp [handle, hfind]⟩
-    | some o => exact ⟨some o, .upd, by simp [handle, hfind]⟩
-  obtain ⟨old, kind, hh⟩ := hev
-  have hrun : runAll c1 [podEvOf c v] = (runEvents (podEvent c1 old v kind).1 ((podEvent c1 old v kind).2 ++ [])).1 := by
+    | none => exact ⟨none, .add, [], by simp [handle, hfind]⟩
+    | some o =>
+      obtain ⟨kx, hkx, _⟩ := idReplays_eq c1 o v
+      exact ⟨some o, .upd, kx, by simp [handle, hfind, hkx]⟩
+  obtain ⟨old, kind, kx, hh⟩ := hev
+  have hrun : runAll c1 [podEvOf c v] =
+      (runEvents (podEvent c1 old v kind).1 (kx.map Ev.replay ++ (podEvent c1 old v kind).2 ++ [])).1 := by
     simp only [runAll, runEvents, hh]
   show setContains (runAll c1 _).resync a k = true
   rw [hrun]
   apply replayEvents_grows _ _ (by
     intro e he
     rw [List.append_nil] at he
-    exact podEvent_out_replays c1 old v kind e he)
+    cases List.mem_append.mp he with
+    | inl h =>
+      obtain ⟨k', _, rfl⟩ := List.mem_map.mp h
+      exact ⟨k', rfl⟩
+    | inr h => exact podEvent_out_replays c1 old v kind e h)
   exact podEvent_keeps c1 old v kind a k ha h
 
 /-- a pod leaving the store does not touch `needResync` -/
